@@ -83,9 +83,19 @@ struct Mon {
   bool size_ok = true, iter_ok = true, find_ok = true, value_ok = true, absent_ok = true, emplace_ok = true;
   int first_bad = -1;
   std::string detail;
+  std::string per[6];   // first failure of each monitor: "<name>@<op index>: <detail>"
   void fail(bool& flag, int opi, const std::string& d) {
+    static const char* names[6] = {"size", "iter", "find", "value", "absent", "emplace"};
+    bool* flags[6] = {&size_ok, &iter_ok, &find_ok, &value_ok, &absent_ok, &emplace_ok};
+    for (int i = 0; i < 6; ++i)
+      if (flags[i] == &flag && flag) per[i] = std::string(names[i]) + "@" + std::to_string(opi) + ": " + d;
     flag = false;
     if (first_bad < 0) { first_bad = opi; detail = d; }
+  }
+  std::string all() const {
+    std::string r;
+    for (int i = 0; i < 6; ++i) if (!per[i].empty()) r += " ;; " + per[i];
+    return r;
   }
 };
 
@@ -240,8 +250,8 @@ static void run_case(const std::string& id, const std::string& ca, const std::st
     ++opi;
   }
   audit<T>(*b, rb, ghosts, m, opi, "B");
-  printf("%s%s | mon_size=%d mon_iter=%d mon_find=%d mon_value=%d mon_absent=%d mon_emplace=%d first_bad=%d %s\n", id.c_str(), obs.c_str(),
-         m.size_ok, m.iter_ok, m.find_ok, m.value_ok, m.absent_ok, m.emplace_ok, m.first_bad, m.detail.c_str());
+  printf("%s%s | mon_size=%d mon_iter=%d mon_find=%d mon_value=%d mon_absent=%d mon_emplace=%d first_bad=%d%s\n", id.c_str(), obs.c_str(),
+         m.size_ok, m.iter_ok, m.find_ok, m.value_ok, m.absent_ok, m.emplace_ok, m.first_bad, m.all().c_str());
   fflush(stdout);
 }
 
